@@ -296,7 +296,7 @@ class Check:
             'theorems': [{'name': n, 'checked': g, 'axioms': a} for n, g, a in self.obligations],
             'evaluations': self.evals, 'distinct_nontrivial': len(self.distinct), 'rule': rule,
             'samples': self.samples[:4] or ['(no sampled cases: property decided by kernel-checked tables only)'],
-            'histogram': dict(self.hist.most_common(40)),
+            'histogram': {**dict(self.hist.most_common(40)), **{k: v for k, v in self.hist.items() if '-hyp:' in str(k)}},   # every hypothesis tag is kept
             'known_findings_hit': list(self.known_hit.keys()),
             'broken': self.broken[:10],
             'notes': self.notes,
